@@ -46,7 +46,7 @@ Expected(a, fs) ==
     [] a.op = "unselect" -> Unselect(fs[1], a.names)
     [] a.op = "rename"   -> Rename(fs[1], a.pairs)
     [] a.op = "colnames" -> Colnames(fs[1], a.names)
-    [] a.op = "cbind"    -> Cbind(fs[1], fs[2])
+    [] a.op = "cbind"    -> IF Len(fs) = 2 THEN Cbind(fs[1], fs[2]) ELSE Cbind(Cbind(fs[1], fs[2]), fs[3])
     [] a.op = "update"   -> Update(fs[1], fs[2])
     [] a.op = "modify"   -> Modify(fs[1], a.name, a.col)
 
@@ -76,7 +76,7 @@ Judge(e) ==
   ELSE IF OrderMatters(a) /\ out.cols # Expected(a, fs).cols THEN a.op \o ":column-order-or-names-not-as-requested"
   ELSE IF a.op = "rbind" THEN (IF RbindRowsOK(fs, out) THEN "" ELSE "rbind:rows-not-stacked-in-argument-order-with-NA-fill")
   ELSE IF a.op \in {"cbind", "update", "modify"} /\
-          ~Untouched(f, out, IF a.op = "cbind" THEN ColSet(fs[2]) \ ColSet(f) ELSE IF a.op = "update" THEN ColSet(fs[2]) ELSE {a.name})
+          ~Untouched(f, out, IF a.op = "cbind" THEN UNION {ColSet(fs[x]) : x \in 2..Len(fs)} \ ColSet(f) ELSE IF a.op = "update" THEN ColSet(fs[2]) ELSE {a.name})
        THEN a.op \o ":untouched-column-changed"
   ELSE IF ~SameTable(out, Expected(a, fs)) THEN a.op \o ":wrong-values"
   ELSE ""
